@@ -136,6 +136,24 @@ func runSkipper(which int, b []byte, t byte, r *rand.Rand, sched int, withData b
 			if err == nil && (len(out) > len(b) || !bytes.Equal(out, b[:len(out)])) {
 				o.note = "returned bytes differ from input prefix"
 			}
+			if err != nil {
+				// a rejected Next consumed nothing: a second Next on the same decoder sees the same bytes
+				for _, t2 := range []byte{ref.BYTE, ref.I32, ref.I64, ref.STRING} {
+					p2 := ref.Parse(b, t2)
+					out2, err2 := d.Next(thrift.TType(t2))
+					if p2.OK && (err2 != nil || len(out2) != p2.N || !bytes.Equal(out2, b[:p2.N])) {
+						o.secondCall = fmt.Sprintf("after a rejected Next(type %d), Next(type %d) on the same BytesSkipDecoder returned %d bytes err=%v; the grammar gives %d", t, t2, len(out2), err2, p2.N)
+						break
+					}
+					if !p2.OK && err2 == nil {
+						o.secondCall = fmt.Sprintf("after a rejected Next(type %d), Next(type %d) on the same BytesSkipDecoder accepted %d bytes of a malformed value", t, t2, len(out2))
+						break
+					}
+					if err2 == nil {
+						break
+					}
+				}
+			}
 			return o
 		})
 	case skReaderDec:
